@@ -42,7 +42,7 @@ def main():
         if rc != 0:
             out['repo_apply'] = o
         else:
-            ids = [f'C{i:02d}' for i in range(1, 21) if i != 6] if props == 'all' else props.split(',')
+            ids = [f'C{i:02d}' for i in range(1, 21)] if props == 'all' else props.split(',')
             for pid in ids:
                 rc, o = sh(f'/venv/bin/python -m sa.check {pid} --tier quick', cwd='/verif')
                 if rc != 0:
